@@ -80,6 +80,10 @@ func verifyFunction(P *Program, S *Specs, fn *ssa.Function, ct *Contract, prop s
 		ec := fr.evalCtx(entry, entry)
 		g, err := ec.tryBool(ax.E)
 		if err != nil {
+			if strings.Contains(err.Error(), "unknown package") || strings.Contains(err.Error(), "unknown variable") {
+				ex.note("axiom about a package that is not loaded for this check was skipped: %s", ax.Src)
+				continue
+			}
 			ex.failOb("contract-typechecks", "axiom", err.Error()+" in axiom "+ax.Src, fn.Pos())
 			continue
 		}
@@ -262,7 +266,7 @@ func (fr *Frame) assignsObligation(entry *MemState, ct *Contract) {
 		}
 		if a.Model == "allrows" {
 			for _, mn := range sortedKeys(ex.S.Models) {
-				if md := ex.S.Models[mn]; len(md.Params) > 0 && md.Params[0].Obj {
+				if md := ex.S.Models[mn]; len(md.Params) > 0 && md.Params[0].Obj && md.Params[0].Name == "o" {
 					listed["F_"+mn] = append(listed["F_"+mn], AssignTarget{Model: mn, Arg: a.Arg})
 				}
 			}
